@@ -102,17 +102,25 @@ def annot(t):
 
 
 class Field:
-    def __init__(self, fid, ty, req='default', nocopy=False, name=None, tag=None):
+    def __init__(self, fid, ty, req='default', nocopy=False, name=None, tag=None,
+                 go_text=None, model_text=None, exported=True, anonymous=False, ignored=False):
         self.fid = fid
         self.ty = ty
         self.req = req
         self.nocopy = nocopy
         self.name = name or ('F%d' % fid)
-        self.tag = tag  # explicit struct tag text (C12 spellings); None = canonical frugal tag
+        self.tag = tag              # explicit struct tag text (C12 spellings, C13 broken tags); None = canonical frugal tag
+        self.go_text = go_text      # Go type text override (types outside the schema language)
+        self.model_text = model_text  # gotype s-expression override matching go_text
+        self.exported = exported
+        self.anonymous = anonymous
+        self.ignored = ignored      # not part of the schema: untagged, unexported or embedded
 
     def tag_text(self):
         if self.tag is not None:
             return self.tag
+        if self.ignored and (self.exported and not self.anonymous):
+            return ''
         s = '%d,%s,%s' % (self.fid, self.req, annot(self.ty))
         if self.nocopy:
             s += ',nocopy'
@@ -120,16 +128,45 @@ class Field:
 
 
 class Struct:
-    def __init__(self, name, fields, holder=False, init=None, extra_go=None):
+    def __init__(self, name, fields, holder=False, init=None, invalid=False):
         self.name = name
-        self.fields = fields            # declaration order
+        self.fields = fields            # declaration order (including ignored fields)
         self.holder = holder
         self.init = init                # None or {field name: value}
-        self.extra_go = extra_go or []  # extra untagged Go field lines
+        self.invalid = invalid          # the definition must be rejected
         self.sid = None
 
     def sorted_fields(self):
-        return sorted(self.fields, key=lambda f: f.fid)
+        if self.invalid:
+            return []
+        return sorted([f for f in self.fields if not f.ignored], key=lambda f: f.fid)
+
+
+def gotype_sx(u, t):
+    k = t[0]
+    if k == 'bool':
+        return 'bool'
+    if k in ('i8', 'i16', 'i32'):
+        return 'int' + k[1:]
+    if k == 'i64':
+        return '(int64 -)'
+    if k == 'double':
+        return 'float64'
+    if k == 'enum':
+        return '(int64 %s)' % t[1]
+    if k == 'string':
+        return 'string'
+    if k == 'binary':
+        return '(slice uint8)'
+    if k in ('list', 'set'):
+        return '(slice %s)' % gotype_sx(u, t[1])
+    if k == 'map':
+        return '(map %s %s)' % (gotype_sx(u, t[1]), gotype_sx(u, t[2]))
+    if k == 'struct':
+        return '(struct %d %s)' % (u.by_name[t[1]].sid, t[1])
+    if k == 'ptr':
+        return '(ptr %s)' % gotype_sx(u, t[1])
+    raise ValueError(t)
 
 
 class Universe:
@@ -190,15 +227,18 @@ class Universe:
     def env_sx(self):
         out = ['(env']
         for s in self.structs:
+            if s.invalid:
+                out.append('(sd %s 0 noinit)' % s.name)
+                continue
             parts = ['(sd %s %d' % (s.name, 1 if s.holder else 0)]
             sf = s.sorted_fields()
             if s.init is None:
                 parts.append('noinit')
             else:
                 asg = []
-                for i, f in enumerate(sf):
-                    if f.name in s.init:
-                        asg.append('(%d %s)' % (i, val_sx(s.init[f.name])))
+                for f in s.fields:          # InitDefault assigns in declaration order
+                    if f.name in s.init and not f.ignored:
+                        asg.append('(%d %s)' % (sf.index(f), val_sx(s.init[f.name])))
                 parts.append('(init %s)' % ' '.join(asg))
             ex = self.fresh(s)[2] if s.init is not None else None
             for i, f in enumerate(sf):
@@ -212,6 +252,30 @@ class Universe:
                 parts.append('(f %d %s %s %d %s %s)' % (f.fid, self.ty_sx(f.ty), f.req, 1 if f.nocopy else 0, d, f.name))
             out.append(' '.join(parts) + ')')
         out.append(')')
+        out.append('(invalid %s)' % ' '.join(s.name for s in self.structs if s.invalid))
+        return '\n'.join(out)
+
+    def gouniverse_sx(self):
+        out = ['(gouniverse']
+        for s in self.structs:
+            parts = ['(gs %s' % s.name]
+            if s.init is None:
+                parts.append('noinit')
+            else:
+                asg = []
+                for i, f in enumerate(s.fields):
+                    if f.name in s.init and not f.ignored:
+                        asg.append('(%d %s)' % (i, val_sx(s.init[f.name])))
+                parts.append('(init %s)' % ' '.join(asg))
+            for f in s.fields:
+                mt = f.model_text if f.model_text is not None else gotype_sx(self, f.ty)
+                tg = f.tag_text().encode().hex() or '-'
+                nm = f.name if not f.anonymous else (f.go_text or go_type(f.ty)).lstrip('*')
+                parts.append('(gf %s %s %s %d %d)' % (nm, mt, tg, 1 if f.exported else 0, 1 if f.anonymous else 0))
+            if s.holder:
+                parts.append('(gf _unknownFields (slice uint8) - 0 0)')
+            out.append(' '.join(parts) + ')')
+        out.append(')')
         return '\n'.join(out)
 
     # ---- Go source
@@ -222,9 +286,12 @@ class Universe:
         for s in self.structs:
             o.append('type %s struct {' % s.name)
             for f in s.fields:
-                o.append('\t%s %s `%s`' % (f.name, go_type(f.ty), f.tag_text()))
-            for line in s.extra_go:
-                o.append('\t' + line)
+                gt = f.go_text if f.go_text is not None else go_type(f.ty)
+                tg = f.tag_text()
+                if f.anonymous:
+                    o.append('\t%s%s' % (gt, (' `%s`' % tg) if tg else ''))
+                else:
+                    o.append('\t%s %s%s' % (f.name, gt, (' `%s`' % tg) if tg else ''))
             if s.holder:
                 o.append('\t_unknownFields []byte')
             o.append('}')
@@ -232,7 +299,7 @@ class Universe:
             if s.init is not None:
                 o.append('func (p *%s) InitDefault() {' % s.name)
                 for f in s.fields:
-                    if f.name in s.init:
+                    if f.name in s.init and not f.ignored:
                         o.append('\tp.%s = %s' % (f.name, self.go_lit(f.ty, s.init[f.name])))
                 o.append('}')
                 o.append('')
